@@ -129,6 +129,34 @@ def spec_ckd_priv(k, cc, index):
     return if_h, (data_h, Hh), (data_n, Hn)
 
 
+def spec_prv_ckd_terms(k, cc, idx):
+    """BIP32 CKDpriv from the BIP text: -> (IL, IR rope, ki)"""
+    from pyvc.logic import seg
+    hardened = idx >= HARD
+    data_h = Rope.of(b"\x00") + ser256(k) + seg(idx, 4)
+    data_n = serP(U.ecmul(k)) + seg(idx, 4)
+    Hh = U.hmac512(cc, data_h)
+    Hn = U.hmac512(cc, data_n)
+    IL = ite(hardened, Hh.slice(0, 32).be(), Hn.slice(0, 32).be())
+    IRv = ite(hardened, Hh.slice(32, 64).be(), Hn.slice(32, 64).be())
+    ki = (IL + k) % N
+    if is_sym(ki):
+        from pyvc.logic import sink
+        sink().add(z3.And(ki >= 0, ki < N))
+    return IL, seg(IRv, 32), ki
+
+
+def spec_pub_ckd_terms(key, pt, cc, idx):
+    """BIP32 CKDpub: -> (IL, IR rope, Ki point)"""
+    from pyvc.logic import seg
+    data = as_rope(key) + seg(idx, 4)
+    H = U.hmac512(cc, data)
+    IL = H.slice(0, 32).be()
+    IR = H.slice(32, 64)
+    Ki = U.ptadd(U.ecmul(IL), pt)
+    return IL, IR, Ki
+
+
 def fingerprint_of_point(pt):
     return U.hash160(serP(pt)).slice(0, 4)
 
